@@ -71,14 +71,24 @@ theorem core3_roundtrip (useHex : Int → Bool) (f : Core3.Func) (h : Core3.wf f
   exact Core3.translate_wf f h.1 h.2
 
 /-- non-vacuity: `define i32 @f(i32 %x, i32 %0) { e: %1 = add i32 %x, 7 / %c = icmp eq i32 %1, %0 / br i1 %c, label %2, label %2 //
-    2: store i32 %1, i32* null, align 4 / ret i32 %1 }` is well-formed -/
+    2: store i32 %1, i32* null, align 4 / ret i32 %1 //
+    s: switch i32 %1, label %2 [ i32 3, label %2 / i32 -1, label %s ] //
+    i: %3 = invoke i32 @f(i32 %1, i32 7) to label %2 unwind label %l //
+    l: %4 = landingpad { i8*, i32 } cleanup catch i8* null / resume { i8*, i32 } %4 }` is well-formed -/
 def core3Sample : Core3.Func :=
   ⟨.int 32, [102], [(.int 32, .name [120]), (.int 32, .id 0)],
-   [⟨.name [101], [⟨some (.id 1), 0, [.flags [0, 1], .tyval (.int 32) (.loc (.name [120])), .val (.const (.int 7))]⟩,
-                  ⟨some (.name [99]), 13, [.tyval (.int 32) (.loc (.id 1)), .val (.loc (.id 0))]⟩],
-      ⟨none, 28, [.val (.loc (.name [99])), .lab (.id 2), .lab (.id 2)]⟩⟩,
-    ⟨.id 2, [⟨none, 24, [.flags [], .tyval (.int 32) (.loc (.id 1)), .tyval (.ptr (.int 32) 0) (.const .null), .align (some 4)]⟩],
-      ⟨none, 26, [.retv (some (.int 32, .loc (.id 1)))]⟩⟩]⟩
+   [⟨.name [101], [⟨some (.id 1), 0, [.flags [0, 1], .tyval (.int 32) (.loc (.name [120])), .val (.const (.int 7))], .none⟩,
+                  ⟨some (.name [99]), 13, [.tyval (.int 32) (.loc (.id 1)), .val (.loc (.id 0))], .none⟩],
+      ⟨none, 28, [.val (.loc (.name [99])), .lab (.id 2), .lab (.id 2)], .none⟩⟩,
+    ⟨.id 2, [⟨none, 24, [.flags [], .tyval (.int 32) (.loc (.id 1)), .tyval (.ptr (.int 32) 0) (.const .null), .align (some 4)], .none⟩],
+      ⟨none, 26, [.retv (some (.int 32, .loc (.id 1)))], .none⟩⟩,
+    ⟨.name [115], [],
+      ⟨none, 82, [.tyval (.int 32) (.loc (.id 1)), .lab (.id 2)], .cases [(.int 32, .int 3, .id 2), (.int 32, .int (-1), .name [115])]⟩⟩,
+    ⟨.name [105], [],
+      ⟨some (.id 3), 84, [.ty (.int 32), .val (.glob [102]), .tyvals [(.int 32, .loc (.id 1)), (.int 32, .const (.int 7))]], .dests (.id 2) (.name [108])⟩⟩,
+    ⟨.name [108], [⟨some (.id 4), 85, [.ty (.struct false (.cons (.ptr (.int 8) 0) (.cons (.int 32) .nil)))],
+                    .clauses true [(false, .ptr (.int 8) 0, .const .null)]⟩],
+      ⟨none, 86, [.tyval (.struct false (.cons (.ptr (.int 8) 0) (.cons (.int 32) .nil))) (.loc (.id 4))], .none⟩⟩]⟩
 
 example : Core3.wf core3Sample = true := by decide +kernel
 
